@@ -18,7 +18,8 @@ func h05a(N int) {
 	var proto, ver, codec, comp [2]int
 	var tls, rawReq, rawResp [2]bool
 	var idem [2]bool
-	names := [2]string{"S/x/one", "S/y/two"}
+	// the first full name contains its simple name twice (a suite called like its test case): the marker goes before the LAST component
+	names := [2]string{"one/x/one", "S/y/two"}
 	simple := [2]string{"one", "two"}
 	for i := 0; i < N; i++ {
 		proto[i], ver[i] = vIntAt("proto", i, 2, 1, 3), vIntAt("ver", i, 2, 1, 3)
